@@ -15,3 +15,8 @@ package doctransformer
 //@ func (v *Transformer) TransformDocument(rm, info) (ret, err)
 //@   requires v != nil && wfModel(rm) && wfInfo(info)
 //@   ensures [atomic] (err != nil ==> ret == nil) && (err == nil ==> ret != nil)
+// ownership (C20): only the input model is written -- its operation lists are ordered in place and
+// its document receives the id; the transformer itself is read-only
+//@   modifies elems(rm.PublishedOperations)
+//@   modifies elems(rm.UnpublishedOperations)
+//@   modifies mapcontent(rm.Doc)
